@@ -18,7 +18,7 @@ RULE = ('m-of-n with n in 2..4 (thorough ..5), every m, witness type legacy / p2
         'after each. [per-wallet anti_fee_sniping, explicit locktimes, imported == exported transaction, bulk get_keys(n) + new_key issuance on every cosigner wallet] Non-trivial = m<n with >=2 hand-offs, or two different media, or a signer order different from '
         'key order; distinct by (m, n, type, permutations, ceremony). [post_edit: the completed spend is changed and re-signed by one cosigner, then sent; verified flag and broadcast judged by the interpreter; post_resign: the other cosigners replace their signatures on the changed spend, m distinct signers of the new version must verify; many: 11/12/15 cosigners, sorted and unsorted keys, addresses before and after a reopen against the reference script] [special_r: creator signature made with a nonce whose r starts with 30/02/03/04/00]'
         " [explicit [change, index] requests on every cosigner wallet; ext_keys: the creator signs with other cosigners' master keys in one call]")
-ASSUMPTIONS = ['SQLite only; offline provider of bitcoinlib_test', 'all cosigner wallets have run utxos_update() before the ceremony', 'default sort_keys=True (BIP67 ordering)',
+ASSUMPTIONS = ['SQLite only; offline provider of bitcoinlib_test', 'all cosigner wallets have run utxos_update() before the ceremony, except the ones a case names as offline signers (they receive the transaction as an object)', 'default sort_keys=True (BIP67 ordering)',
                'BIP45 (legacy) paths carry a cosigner index: all wallets are asked for the same cosigner index']
 SHARDS = {'quick': 16, 'thorough': 16}
 WALL_CAP = {'quick': 900, 'thorough': 3400}
@@ -197,8 +197,14 @@ def _run_case_inner(ctx, case):
         try:
             # every cosigner wallet has synchronised its UTXOs, as the library asks of online wallets ("Please
             # update UTXO's if this is not an offline wallet"); an unsynchronised wallet is not explored
-            for w in [w_ for w_ in wallets if w_ is not None]:
-                w.utxos_update()
+            # (... except for the wallets a case names as offline signers: they have derived the address but never
+            # looked at the chain; a transaction reaches them as an object, which carries the values and script types)
+            offline = set(part[x % len(part)] for x in case.get('offline') or ()) - {creator}
+            for i_, w in [(i_, w_) for i_, w_ in enumerate(wallets) if w_ is not None]:
+                if i_ not in offline:
+                    w.utxos_update()
+            if offline:
+                flags.add('offline_signer')
             utxos = [x for x in wa.utxos() if x['address'] in ref_scripts]
             u = utxos[case['creator'] % len(utxos)]
             want_script = ref_scripts[u['address']]
@@ -317,6 +323,9 @@ def _run_case_inner(ctx, case):
             if medium == 'raw' and min(len(s_) for s_ in signed) < m and \
                     ctx.known_active('C10-raw-handoff-loses-partial-signatures'):
                 ctx.exclude('raw handoff of partially signed transaction')
+                medium = 'object'
+            if j in offline and medium != 'object':
+                ctx.exclude('dict / raw handoff to an offline signer')
                 medium = 'object'
             try:
                 if medium == 'object':
@@ -635,7 +644,7 @@ def _strategy(ctx):
                 'post_edit': draw(st.sampled_from([None, 'sign_replace', 'sign_and_update', 'sign'])),
                 'post_resign': draw(st.booleans()),
                 'special_r': draw(st.sampled_from([None, None, 0, 1, 2, 3, 4, 6, 8, 10])),
-                'bulk': draw(st.sampled_from([0, 0, 2, 3])), 'ext_keys': draw(st.sampled_from([0, 0, 0, 1, 2, 3])), 'ext_repeat': draw(st.booleans()), 'explicit_paths': draw(st.sampled_from([[], [], [[1, 4]], [[0, 2], [1, 1]], [[1, 4], [0, 3]]])), 'bulk_change': draw(st.sampled_from([0, 0, 1])), 'creator': draw(st.integers(0, n - 1)), 'handoffs': handoffs,
+                'bulk': draw(st.sampled_from([0, 0, 2, 3])), 'ext_keys': draw(st.sampled_from([0, 0, 0, 1, 2, 3])), 'offline': draw(st.sampled_from([[], [], [], [0], [1], [0, 1], [2]])), 'ext_repeat': draw(st.booleans()), 'explicit_paths': draw(st.sampled_from([[], [], [[1, 4]], [[0, 2], [1, 1]], [[1, 4], [0, 3]]])), 'bulk_change': draw(st.sampled_from([0, 0, 1])), 'creator': draw(st.integers(0, n - 1)), 'handoffs': handoffs,
                 'rng': draw(st.integers(0, 2 ** 31))}
     return cases()
 
